@@ -719,6 +719,51 @@ def engine_fields_after_init(em):
     return out
 
 
+def rule_fact_objects_one_per_assert(em, rep, rid):
+    rep.rule(rid, 'every stored fact is an object of its own, made by the assert that stores it: the fact class is instantiated '
+                  'only inside functions (no instance made at import time or in a class body), and no instance is kept in a field, '
+                  'class attribute, global or cache for reuse - removal is by identity, so one object standing for several facts '
+                  'makes one retract remove them all')
+    ans = em.repo.cls('engine', 'Answer')
+    mod = em.engine
+    n = 0
+
+    def is_ctor(x):
+        return isinstance(x, ast.Call) and ((is_name(x.func, ans.name)) or
+                                            (isinstance(x.func, ast.Name) and x.func.id == 'cls'))
+    # import time / class body
+    for st in ast.walk(mod.tree):
+        if isinstance(st, (ast.FunctionDef, ast.AsyncFunctionDef, ast.Lambda)):
+            continue
+    top = [st for st in mod.tree.body if not isinstance(st, (ast.FunctionDef, ast.ClassDef))]
+    for c in mod.tree.body:
+        if isinstance(c, ast.ClassDef):
+            top += [st for st in c.body if not isinstance(st, (ast.FunctionDef, ast.ClassDef))]
+    for st in top:
+        for x in ast.walk(st):
+            if isinstance(x, ast.Call) and is_name(x.func, ans.name):
+                n += 1
+                rep.violation(rid, 'module:%s' % norm(st)[:50], 'a fact object is created when the module is imported (%s): whatever hands it '
+                              'out stores the same object several times' % norm(st)[:50], mod.loc(st))
+    for f in em.repo.all_functions(('engine',)):
+        for s_ in own_nodes_ordered(f.node):
+            if isinstance(s_, ast.Assign) and isinstance(s_.value, ast.Call) and is_name(s_.value.func, ans.name):
+                n += 1
+                kept = [t for t in s_.targets if isinstance(t, (ast.Attribute, ast.Subscript))]
+                key = '%s:%s' % (f.qname, norm(s_)[:50])
+                if kept:
+                    rep.violation(rid, key, 'a fact object is kept in %s for later use instead of being made for the one fact that is '
+                                  'stored' % norm(kept[0]), f.loc(s_))
+                else:
+                    rep.ok(rid, key, 'made where it is stored', f.loc(s_))
+            elif isinstance(s_, ast.Return) and s_.value is not None:
+                for x in ast.walk(s_.value):
+                    if isinstance(x, ast.Attribute) and isinstance(x.value, ast.Name) and x.value.id in ('cls', ans.name) and x.attr.isupper():
+                        n += 1
+                        rep.violation(rid, '%s:%s' % (f.qname, norm(s_)[:50]), 'a shared fact object (%s) is handed out in place of a new one' % norm(x), f.loc(s_))
+    rep.minimum('places where fact objects are made', n, 1)
+
+
 def rule_clear_restores_context(em, rep, rid):
     rep.rule(rid, 'clear() leaves the evaluation context as the constructor made it: the constructor and then clear() are '
                   'evaluated by the checker (registrations taken from the builtin table) and the two contexts are compared key '
